@@ -5,9 +5,9 @@ import re
 from vlib import Ctx, Inconclusive, main_wrap, pick, SPEC, log
 
 GRID_Q = dict(enc='{"", "json", "proto", "bogus"}', comp='{"", "per-message", "context-takeover", "bogus"}',
-              lvl="LvlAll", win="WinQ", tid='{"", "t", "a\\"b\\\\c&d=e <f>", "LLLLLLLLLLLLLLLLLLLLLLLLLLLLLLLLLLLLLLLLLLLLLLLLLLLLLLLLLLLLLLLLLLLLLLLLLLLLLLLLLLLLLLLLLLLLLLLLLLLLLLLLLLLLLLLLLLLLLLLLLLLLLLLLLL"}', grp="{0, 1}", bases="{1, 2, 3, 4}")
+              lvl="LvlAll", win="WinQ", tid='{"", "t", "a\\"b\\\\c&d=e <f>", "x+y%2Fz 100%", "LLLLLLLLLLLLLLLLLLLLLLLLLLLLLLLLLLLLLLLLLLLLLLLLLLLLLLLLLLLLLLLLLLLLLLLLLLLLLLLLLLLLLLLLLLLLLLLLLLLLLLLLLLLLLLLLLLLLLLLLLLLLLLLLLL"}', grp="{0, 1}", bases="{1, 2, 3, 4}")
 GRID_T = dict(enc='{"", "json", "proto", "bogus", "JSON"}', comp='{"", "per-message", "context-takeover", "bogus", "Per-Message"}',
-              lvl="LvlAll", win="WinT", tid='{"", "t", "a\\"b\\\\c&d=e <f>", "LLLLLLLLLLLLLLLLLLLLLLLLLLLLLLLLLLLLLLLLLLLLLLLLLLLLLLLLLLLLLLLLLLLLLLLLLLLLLLLLLLLLLLLLLLLLLLLLLLLLLLLLLLLLLLLLLLLLLLLLLLLLLLLLLL", "MMMMMMMMMMMMMMMMMMMMMMMMMMMMMMMMMMMMMMMMMMMMMMMMMMMMMMMMMMMMMMMMMMMMMMMMMMMMMMMMMMMMMMMMMMMMMMMMMMMMMMMMMMMMMMMMMMMMMMMMMMMMMMMMMMMMMMMMMMMMMMMMMMMMMMMMMMMMMMMMMMMMMMMMMMMMMMMMMMMMMMMMMMMMMMMMMMMMMMMMMMMMMMMMMMMMMMMMMMMMMMMMMMMMMMMMMMMMMMMMMMMMMMMMMMMMMMMMMMMMMMMMMMMMMMMMMMMMMMMMMMMMMMMMMMMMMMMMMMMM"}', grp="{0, 1, 2, 3}", bases="{1, 2, 3, 4, 5, 6}")
+              lvl="LvlAll", win="WinT", tid='{"", "t", "a\\"b\\\\c&d=e <f>", "x+y%2Fz 100%", "LLLLLLLLLLLLLLLLLLLLLLLLLLLLLLLLLLLLLLLLLLLLLLLLLLLLLLLLLLLLLLLLLLLLLLLLLLLLLLLLLLLLLLLLLLLLLLLLLLLLLLLLLLLLLLLLLLLLLLLLLLLLLLLLLL", "MMMMMMMMMMMMMMMMMMMMMMMMMMMMMMMMMMMMMMMMMMMMMMMMMMMMMMMMMMMMMMMMMMMMMMMMMMMMMMMMMMMMMMMMMMMMMMMMMMMMMMMMMMMMMMMMMMMMMMMMMMMMMMMMMMMMMMMMMMMMMMMMMMMMMMMMMMMMMMMMMMMMMMMMMMMMMMMMMMMMMMMMMMMMMMMMMMMMMMMMMMMMMMMMMMMMMMMMMMMMMMMMMMMMMMMMMMMMMMMMMMMMMMMMMMMMMMMMMMMMMMMMMMMMMMMMMMMMMMMMMMMMMMMMMMMMMMMMMMMM"}', grp="{0, 1, 2, 3}", bases="{1, 2, 3, 4, 5, 6}")
 
 CFG_TMPL = """SPECIFICATION Spec
 CONSTANTS
